@@ -324,12 +324,26 @@ impl Assembler for IntervalAssembler {
     fn build_add(&mut self, out_reg: u8, lhs_reg: u8, rhs_reg: u8) {
         dynasm!(self.0.ops
             ; vaddps Rx(reg(out_reg)), Rx(reg(lhs_reg)), Rx(reg(rhs_reg))
+            // Opposite infinities cancel to NaN in a single bound; such a
+            // result is undecided, so turn it into the NaN interval (both
+            // lanes all-ones) instead of leaving a half-NaN interval
+            ; vcmpunordps xmm1, Rx(reg(out_reg)), Rx(reg(out_reg))
+            ; vpshufd xmm2, xmm1, 0b11110001u8 as i8
+            ; vorps xmm1, xmm1, xmm2
+            ; vorps Rx(reg(out_reg)), Rx(reg(out_reg)), xmm1
         );
     }
     fn build_sub(&mut self, out_reg: u8, lhs_reg: u8, rhs_reg: u8) {
         dynasm!(self.0.ops
             ; vpshufd xmm1, Rx(reg(rhs_reg)), 0b11110001u8 as i8
             ; vsubps Rx(reg(out_reg)), Rx(reg(lhs_reg)), xmm1
+            // Opposite infinities cancel to NaN in a single bound; such a
+            // result is undecided, so turn it into the NaN interval (both
+            // lanes all-ones) instead of leaving a half-NaN interval
+            ; vcmpunordps xmm1, Rx(reg(out_reg)), Rx(reg(out_reg))
+            ; vpshufd xmm2, xmm1, 0b11110001u8 as i8
+            ; vorps xmm1, xmm1, xmm2
+            ; vorps Rx(reg(out_reg)), Rx(reg(out_reg)), xmm1
         );
     }
     fn build_mul(&mut self, out_reg: u8, lhs_reg: u8, rhs_reg: u8) {
